@@ -435,7 +435,7 @@ func (ex *Exec) posOf(fr *Frame, pos token.Pos) string {
 		return "?"
 	}
 	p := ex.p.prog.Fset.Position(pos)
-	return fmt.Sprintf("%s:%d", strings.TrimPrefix(p.Filename, "/repo/"), p.Line)
+	return fmt.Sprintf("%s:%d", strings.TrimPrefix(p.Filename, repoRoot), p.Line)
 }
 
 func (ex *Exec) recordViolation(kind, label, pos, msg string, model map[string]uint64) {
